@@ -535,6 +535,36 @@ func stagedStoreStress(k *mon.Case) {
 		}(g, rand.New(rand.NewSource(r.Int63())))
 	}
 	wg.Wait()
+	// hot keys: stored in the database, not yet in the overlay; for each key one goroutine
+	// reads it while another one overwrites it, both walking the keys in the same order. At
+	// quiescence the staged value must be the written one (a read must never undo a write).
+	hot := 3000
+	for i := 0; i < hot; i++ {
+		d.Set([]byte{1, 9, byte(i >> 8), byte(i)}, []byte{0xaa})
+	}
+	hv := root.WithPrefix([]byte{9})
+	hv2 := root.WithPrefix([]byte{9})
+	var hwg sync.WaitGroup
+	hwg.Add(2)
+	go func() {
+		defer hwg.Done()
+		for i := 0; i < hot; i++ {
+			hv.Get([]byte{byte(i >> 8), byte(i)})
+		}
+	}()
+	go func() {
+		defer hwg.Done()
+		for i := 0; i < hot; i++ {
+			hv2.Set([]byte{byte(i >> 8), byte(i)}, []byte{0xbb, byte(i)})
+		}
+	}()
+	hwg.Wait()
+	for i := 0; i < hot; i++ {
+		if v, ok := hv.Get([]byte{byte(i >> 8), byte(i)}); !ok || !bytes.Equal(v, []byte{0xbb, byte(i)}) {
+			k.Violation("staged:write-undone-by-concurrent-read", "a staged write to a key was lost because another goroutine read the same key at the same time", map[string]any{"key_index": i, "got": fmt.Sprintf("%x", v)})
+			break
+		}
+	}
 	batch := d.NewBatch()
 	root.Commit(batch)
 	d.Write(batch)
